@@ -30,6 +30,24 @@ def private(obj):
     return copy.deepcopy(obj) if isinstance(obj, torch.nn.Module) else obj
 
 
+def private_decoder(spec: dict, kind: str, opts: Optional[dict] = None):
+    """A decoder (with its encoder) that no other run has touched: a deep copy of the prototype, or a fresh
+    build where the object cannot be deep-copied (BCH objects hold a GF(2^m) field whose class defines __new__(m))."""
+    proto = build_decoder(spec, kind, opts)
+    try:
+        return private(proto)
+    except Exception:
+        return build_decoder(spec, kind, opts, fresh=True)
+
+
+def private_encoder(spec: dict):
+    proto = build_encoder(spec)
+    try:
+        return private(proto)
+    except Exception:
+        return build_encoder(spec, fresh=True)
+
+
 # --------------------------------------------------------------------------- code specs
 
 
@@ -358,7 +376,7 @@ def codebook(spec: dict) -> Optional[List[int]]:
         return None
     msgs = torch.tensor(list(itertools.product([0, 1], repeat=k)), dtype=torch.float32)
     with contextlib.redirect_stdout(io.StringIO()):
-        cw = private(enc)(msgs)
+        cw = private_encoder(spec)(msgs)
     weights = (2 ** torch.arange(n - 1, -1, -1, dtype=torch.int64))
     words = ((cw.round().to(torch.int64) % 2) * weights).sum(dim=1).tolist()
     _MISC_CACHE[key] = words
